@@ -500,6 +500,9 @@ CORPUS: list[tuple[dict, tuple, int]] = [
     ({"t0": [("T", "["), ("B", "a", False, [("T", "r")], None), ("T", "]")],
       "t1": [("E", "t0"), ("B", "a", False, [("T", "1")], None)], "t2": [("E", "t0")]},
      ("wrap", [(False, "t1"), (False, "t2"), (False, "t0")]), 30),
+    ({"t0": [("T", "["), ("B", "a", False, [("T", "r")], None), ("T", "]")],
+      "t1": [("E", "t0"), ("B", "a", False, [("T", "1")], None)]},
+     ("wrap", [(False, "t1"), (False, "t0"), (True, "t1"), (False, "t0")]), 30),
     ({"t0": [("T", "["), ("B", "a", False, [("T", "r"), ("S",)], None), ("T", "]")],
       "t1": [("E", "t0"), ("B", "a", False, [("T", "1"), ("S",)], None)], "t2": [("E", "t0")]},
      ("wrap", [(True, "t1"), (False, "t1"), (False, "t2"), (True, "t2")]), 30),
